@@ -8,6 +8,7 @@
   on the order in which the batch is processed.
 -/
 import PG.Model.CacheRead
+import PG.Lemmas.HashOrder
 namespace PG
 
 /-- answering a batch in any order gives the same answer for each query (trivial: purity) -/
@@ -20,5 +21,11 @@ theorem C20_frames_order_indep (m : Mapper) (c : Cache) (qs₁ qs₂ : List Fram
     (qs₁.map (fun q => (q, m.remapFrame q, c.remapFrame q))).Perm
       (qs₂.map (fun q => (q, m.remapFrame q, c.remapFrame q))) :=
   h.map _
+
+/-- tie to the source (re-checked on every run): the mapper's hash maps are only ever looked
+    up / inserted into, never iterated, so no answer can depend on a per-process hash seed -/
+theorem C20_hash_ops_order_free :
+    Generated.hashExtractorOk = true ∧ ∀ op ∈ Generated.hashOps, op.2.2 ∈ orderFreeOps :=
+  hash_ops_order_free
 
 end PG
